@@ -7,7 +7,7 @@
    channel, a second close of a channel, and a sender that is blocked on a channel when it
    gets closed all lead to the [panic] state.
 
-   The model is parametric in a [variant]: six syntactic facts about the source that
+   The model is parametric in a [variant]: seven syntactic facts about the source that
    harness/cmd/extract/ws.go reads from the Go AST on every run (coq/gen/WsTable.v).
    [pinned] is the tree as it was found, [source_variant] is what the source says now.
 
@@ -37,21 +37,23 @@ Record variant := {
                              that marked the connection closed (test-and-set) *)
   v_mark_first : bool;    (* CloseDataConnection marks the connection closed before it sends the close frame *)
   v_pump_closes_q : bool; (* writeShipPump closes shipWriteChannel when it exits *)
-  v_send_select : bool    (* the writer's channel send is a select against closeChannel *)
+  v_send_select : bool;   (* the writer's channel send is a select against closeChannel *)
+  v_read_recheck : bool   (* the read pump tests the flag again between ReadMessage and what it does with the result *)
 }.
 
 Definition pinned : variant :=
   {| v_early_return := true; v_cwe_closes := false; v_tas := false; v_mark_first := false;
-     v_pump_closes_q := true; v_send_select := false |}.
+     v_pump_closes_q := true; v_send_select := false; v_read_recheck := true |}.
 
 Definition repaired : variant :=
   {| v_early_return := false; v_cwe_closes := true; v_tas := true; v_mark_first := true;
-     v_pump_closes_q := false; v_send_select := true |}.
+     v_pump_closes_q := false; v_send_select := true; v_read_recheck := true |}.
 
 Definition source_variant : variant :=
   {| v_early_return := ws_close_early_return; v_cwe_closes := ws_cwe_calls_close;
      v_tas := ws_report_only_if_first; v_mark_first := ws_close_marks_first;
-     v_pump_closes_q := ws_pump_closes_queue; v_send_select := ws_send_selects_close |}.
+     v_pump_closes_q := ws_pump_closes_queue; v_send_select := ws_send_selects_close;
+     v_read_recheck := ws_read_rechecks_closed |}.
 
 Definition qcap : nat := ws_queue_cap.
 
@@ -302,7 +304,7 @@ Definition reader_step (V : variant) (s : state) (l : label) : option state :=
   (* our own conn.Close(), or the peer's echo of our own close frame, ends the read *)
   | RRead, LReadErr => if connc (sh s) || cfsent (sh s) then Some (set_rd s (RChk2 (GErr false))) else None
   | RChk2 x, LRd =>
-      if flag (sh s) then Some (set_rd s RExit)
+      if v_read_recheck V && flag (sh s) then Some (set_rd s RExit)
       else match x with
            | GMsg => Some (set_rd s RDeliver)
            | GErr g => if v_tas V then Some (set_rd s (RTas g)) else Some (set_rd s (RClose g false CEnter))
